@@ -47,11 +47,11 @@ PROPS = {
              "carries unique marker constants; non-trivial = at least one special-mode or function-level injection",
         level_text="Proof on the mirror: rejection at the call for inapplicable instructions, acceptance otherwise, the 'special' report of add_instr (all operators, modes, flags), and "
                    "C22_no_special_probe_is_lost: for every body and every plan without replacements outside the D16-D18 shapes (semantic-after on branch instructions), the block-entry / block-exit / semantic-after code of every construct and the function entry / exit code occur "
-                   "in the emitted body (Proofs/NoLoss.v over the flattening theorem). With replacements and on the real output the statement (every accepted special injection outside a removed region is reflected, no BUG log line) "
+                   "in the emitted body (Proofs/NoLoss.v over the flattening theorem). With replacements and on the real output the statement (every accepted special injection outside a removed region is reflected, every one inside a removed region or on the replaced opener disappears with it, no BUG log line) "
                    "is decided per case in Coq. Known class D16 (D19 and D20 were repaired by fix: commits).",
         level_note="Trusted: Coq kernel + vm_compute; the harness (markers, log capture). Modelled, not verified: the injection paths, resolve_special_instrumentation, emission.",
         technique="Coq lemmas on the API model + in-Coq marker check on the real output + refutation witnesses",
         design_ref="5/C22", trusted_base=LOW_TB, modelled="add_instr, the four API paths, resolve_special_instrumentation, emission",
-        assumptions=["'reflected' = every marker constant of the probe occurs in the encoded body; special-mode sites inside a region the same plan removes are outside the domain"],
+        assumptions=["'reflected' = every marker constant of the probe occurs in the encoded body; 'disappears' = none of them occurs (marker constants are unique per probe)"],
     ),
 }
